@@ -4,7 +4,7 @@ Usage: tools/regress_seeded.py [id-substring]   (never touches /repo's working t
 import glob, json, os, subprocess, sys
 VERIF = os.path.dirname(os.path.dirname(os.path.abspath(__file__)))
 flt = sys.argv[1] if len(sys.argv) > 1 else ""
-wt = "/tmp/wt-regress"
+wt = os.environ.get("REGRESS_WT", "/tmp/wt-regress")
 subprocess.run(["git", "-C", "/repo", "worktree", "remove", "--force", wt], capture_output=True)
 subprocess.run(["git", "-C", "/repo", "worktree", "add", "-q", wt, "HEAD"], check=True)
 missed = []
